@@ -334,6 +334,10 @@ struct basic_string_view {
     /// if no such substring is found.
     [[nodiscard]] constexpr auto find(basic_string_view v, size_type pos = 0) const noexcept -> size_type
     {
+        if (v.empty()) {
+            return pos <= size() ? pos : npos;
+        }
+
         if (v.size() > size() - pos) {
             return npos;
         }
